@@ -136,7 +136,7 @@ def _canon(v):
 def snapshot(cls, depth=0, seen=None):
     seen = seen or ()
     if id(cls) in seen or depth > 5:
-        return {'ref': cls.__name__}
+        return {'ref': cls.__name__, 'attrs': {}}
     seen = seen + (id(cls),)
     s = {'name': cls.__name__}
     A = cls.Attributes
@@ -316,7 +316,8 @@ def draw_ops(seed):
             ops.append([k, a, _draw_attrs(r, 'other')])
         elif k == 'array':
             ops.append([k, a, r.choice(('plain', 'unwrapped', 'member_name',
-                                        'serializer_attrs', 'plain'))])
+                                        'serializer_attrs', 'plain',
+                                        'unwrapped_n'))])
         elif k in ('iterable', 'mandatory', 'drop_reference'):
             ops.append([k, a])
         elif k == 'subclass':
@@ -364,6 +365,11 @@ class Machine(object):
         C2 = type('C2', (C0,), {'__namespace__': 'ns.c',
                   '_type_info': [('d', Date), ('e', Unicode(max_len=4))]})
         self._add(C2, 'complex', 6, 'subclass', 'C2')
+        E0 = type('E0', (ComplexModel,), {'__namespace__': 'ns.c'})
+        e0 = self._add(E0, 'complex', None, 'declared', 'E0')
+        E1 = type('E1', (E0,), {'__namespace__': 'ns.c',
+                  '_type_info': [('z', Integer)]})
+        self._add(E1, 'complex', e0, 'subclass', 'E1')
         self.snaps = [snapshot(c) for c in self.pool]
 
     def _add(self, cls, kind, src, rel, base):
@@ -379,7 +385,29 @@ class Machine(object):
         return len(self.pool) - 1
 
     def viol(self, sig, what):
+        # A declared base class WITHOUT fields is not recorded as __extends__
+        # by spyne (ComplexModelMeta tells framework roots from user classes
+        # by their being empty).  Everything that follows from that one root
+        # cause is reported under one coarse signature per oracle.
+        if self._empty_base_involved():
+            sig = 'empty-base|' + sig.split('|')[0]
         self.V.append({'sig': sig, 'what': 'step %d: %s' % (self.step, what)})
+
+    def _lineage(self, i):
+        out = set()
+        while i is not None and i not in out:
+            out.add(i)
+            i = self.meta[i]['src']
+        return out
+
+    def _empty_base_involved(self):
+        t = getattr(self, '_last_target', None)
+        if t is None:
+            return False
+        roots = set(j for j, m in enumerate(self.meta)
+                    if m['base'] in ('E0', 'E1'))
+        return bool(self._lineage(t) & roots) or \
+            self.meta[t]['base'] in ('E0', 'E1')
 
     # -- helpers -------------------------------------------------------------
     def _live(self, kind=None):
@@ -409,6 +437,18 @@ class Machine(object):
                     target.add(j)
                     changed = True
         return target
+
+    def _mentions_self(self, c):
+        ti = getattr(c, '_type_info', None) or {}
+        orig = getattr(c, '__orig__', None) or c
+        for v in ti.values():
+            if v is c or v is orig or getattr(v, '__orig__', None) is orig:
+                return True
+            vi = getattr(v, '_type_info', None) or {}
+            for w in vi.values():
+                if w is c or w is orig or getattr(w, '__orig__', None) is orig:
+                    return True
+        return False
 
     def _mentions(self, c, targets, depth=0, seen=None):
         seen = seen or set()
@@ -506,7 +546,12 @@ class Machine(object):
                     simple = list(c.get_simple_type_info(c).keys())
                 except Exception as e:
                     simple = 'E:' + type(e).__name__
-                out.append((i, flat, simple))
+                try:
+                    subs = sorted(x.__name__ for x in (c.get_subclasses()
+                                                        or ()))
+                except Exception as e:
+                    subs = 'E:' + type(e).__name__
+                out.append((i, flat, simple, subs))
             return out
 
         warm = observe()
@@ -518,7 +563,11 @@ class Machine(object):
         finally:
             for m, d in zip(memos, saved):
                 m.memo = d
-        for (i, f1, s1), (_, f2, s2) in zip(warm, cold):
+        for (i, f1, s1, b1), (_, f2, s2, b2) in zip(warm, cold):
+            if b1 != b2:
+                self.viol('stale-cache|subclasses', 'member %d: cached '
+                          'get_subclasses %r, fresh %r' % (i, b1, b2))
+                break
             if f1 != f2:
                 self.viol('stale-cache|flat_type_info', 'member %d: cached '
                           'get_flat_type_info %r, fresh %r' % (i, f1, f2))
@@ -628,7 +677,13 @@ class Machine(object):
         dicts.append(('kwargs', attrs, saved))
         self._effect('customize', i, new, attrs,
                      ignore=('unicode_pattern', 'max_str_len'))
-        if issubclass(src, ComplexModelBase):
+        if issubclass(src, ComplexModelBase) and self._mentions_self(src):
+            # recursive structure: the snapshots cut the cycle at different
+            # places for the two classes; compare the field names only
+            if list(src._type_info.keys()) != list(new._type_info.keys()):
+                self.viol('effect|customize|fields', 'customize() changed the '
+                          'field names of a self-referencing class')
+        elif issubclass(src, ComplexModelBase):
             a, b = snapshot(src), snapshot(new)
             if _strip_names(a).get('fields') != _strip_names(b).get('fields'):
                 self.viol('effect|customize|fields', 'customize() changed the '
@@ -767,6 +822,8 @@ class Machine(object):
             new = Array(src)
         elif variant == 'unwrapped':
             new = Array(src, wrapped=False)
+        elif variant == 'unwrapped_n':
+            new = Array(src, wrapped=False, max_occurs=3)
         elif variant == 'member_name':
             new = Array(src, member_name='item')
         else:
@@ -783,10 +840,22 @@ class Machine(object):
                           'not applied to the member: min_occurs=%r' %
                           mv.Attributes.min_occurs)
             (ok_, ov), = src._type_info.items()
+            if mk != ok_:
+                self.viol('effect|array|serializer_attrs-member-name',
+                          'serializer_attrs renamed the member %r -> %r' % (
+                                                               ok_, mk))
+            if new.get_type_name() != src.get_type_name():
+                self.viol('effect|array|serializer_attrs-type-name',
+                          'serializer_attrs changed the array type name %r -> '
+                          '%r' % (src.get_type_name(), new.get_type_name()))
             j = self._add(new, 'array', i, 'customized', self.meta[i]['base'])
             self.nontrivial = True
             return j, set()
-        if variant == 'unwrapped':
+        if variant == 'unwrapped_n':
+            self._effect('array-unwrapped', i, new, {'max_occurs': 3},
+                         ignore=('unicode_pattern', 'max_str_len'))
+            kind = self.meta[i]['kind']
+        elif variant == 'unwrapped':
             self._effect('array-unwrapped', i, new,
                          {'max_occurs': 'unbounded'}
                          if src.Attributes.max_occurs == 1 else {},
@@ -818,8 +887,8 @@ class Machine(object):
         if self._has_derivatives(i):
             self.nontrivial = True
         # Array(T, wrapped=False) is T.customize(...): a variant of T
-        j = self._add(new, kind, i, 'customized' if variant == 'unwrapped'
-                      else 'array-of', self.meta[i]['base'])
+        j = self._add(new, kind, i, 'customized' if variant in ('unwrapped',
+                      'unwrapped_n') else 'array-of', self.meta[i]['base'])
         return j, set()
 
     def op_iterable(self, op, dicts):
@@ -836,7 +905,8 @@ class Machine(object):
         new = Mandatory(src)
         want = {'min_occurs': 1, 'nillable': False}
         if issubclass(src, Unicode):
-            want['min_len'] = max(1, 1)
+            # "mandatory" must not LOWER what the source already demanded
+            want['min_len'] = max(1, src.Attributes.min_len)
         self._effect('mandatory', i, new, want,
                      ignore=('unicode_pattern', 'max_str_len'))
         if issubclass(src, Array):
@@ -898,8 +968,10 @@ class Machine(object):
         self._last_target = i
         cls = self.pool[i]
         ft = self.pool[self._pick(op[2])]
-        if ft is cls or self._mentions(ft, [cls]):
-            raise _Skip()       # no self-containing structures
+        if ft is not cls and self._mentions(ft, [cls]):
+            raise _Skip()       # no mutually containing structures
+        if ft is cls and op[2] % 3:
+            raise _Skip()       # a self-typed field only now and then
         self.counter += 1
         name = 'f%d' % self.counter
         # who must see the new field: the class, its live customised variants
@@ -990,6 +1062,13 @@ class Machine(object):
                     is_sub = True
                     break
                 ext = getattr(ext, '__extends__', None)
+            # ... or was DECLARED `class c(cls)` by this history, whatever
+            # spyne recorded
+            k_ = j
+            while not is_sub and self.meta[k_]['rel'] == 'subclass':
+                k_ = self.meta[k_]['src']
+                if k_ == i:
+                    is_sub = True
             if is_sub:
                 flat = list(c.get_flat_type_info(c).keys())
                 if name not in flat:
